@@ -644,6 +644,7 @@ Inductive op :=
 | OMul (a b : nat)                                              (* a * b *)
 | OResult (a : nat) (lbl : option string) (sg1 sg2 : Z)         (* result(a, label) *)
 | OSetCorr (a b : nat) (r : Z)                                  (* set_correlation(r/8, a, b) *)
+| OSetCorrC (a b : nat) (r : Z * Z * Z * Z)                     (* set_correlation((rr,ri,ir,ii)/8, z_a, z_b): zeros are STORED *)
 | OAppendEns (member x : nat)                                   (* lib.append_real_ensemble(member, x): what fit predictions do *)
 | OArchive                                                      (* Archive() *)
 | OAdd (ar : nat) (kw : list (string * nat))                    (* ar.add with keyword arguments kw *)
@@ -861,6 +862,30 @@ Definition step0 (st : state) (o : op) : state * out :=
               then (w_ses st (corr_set (corr_set s ux uy r) uy ux r), OutOk)
               else (st, OutSkip)
           | _, _ => (st, OutSkip)
+          end
+      | _, _ => (st, OutSkip)
+      end
+  | OSetCorrC a b r =>
+      (* UncertainComplex.set_correlation with a 4-sequence: unless all four are zero, every coefficient --
+         an explicit 0.0 included -- is assigned to both leaves of its pair *)
+      match nth_error (st_objs st) a, nth_error (st_objs st) b with
+      | Some (PComplex xr xi), Some (PComplex yr yi) =>
+          match r_node xr, r_node xi, r_node yr, r_node yi with
+          | NLeaf u1, NLeaf u2, NLeaf v1, NLeaf v2 =>
+              let '(r0, r1, r2, r3) := r in
+              let inf u := match lget (s_leaves s) u with Some l => l_df l =? -1 | None => false end in
+              let okr x := (-8 <=? x) && (x <=? 8) in
+              if negb (uid_eqb u1 v1) && negb (uid_eqb u1 v2) && negb (uid_eqb u2 v1) && negb (uid_eqb u2 v2)
+                 && leaf_dep s u1 && leaf_dep s u2 && leaf_dep s v1 && leaf_dep s v2
+                 && inf u1 && inf u2 && inf v1 && inf v2
+                 && plain xr && plain xi && plain yr && plain yi
+                 && okr r0 && okr r1 && okr r2 && okr r3
+                 && negb ((r0 =? 0) && (r1 =? 0) && (r2 =? 0) && (r3 =? 0))
+              then
+                let set2 s u v x := corr_set (corr_set s u v x) v u x in
+                (w_ses st (set2 (set2 (set2 (set2 s u1 v1 r0) u1 v2 r1) u2 v1 r2) u2 v2 r3), OutOk)
+              else (st, OutSkip)
+          | _, _, _, _ => (st, OutSkip)
           end
       | _, _ => (st, OutSkip)
       end
